@@ -179,7 +179,16 @@ bool Units::UnitsImpl::performTestWithHistory(History &history, std::vector<Unit
 
         history.push_back(h);
 
-        return importedUnits->pFunc()->performTestWithHistory(history, path, importedUnits, type);
+        // Note: the history is shared with the units that refer to us, so make
+        //       sure that it is left as we found it (otherwise, a sibling that
+        //       is imported from a model met further down our chain of imports
+        //       would be mistaken for a cyclic import).
+
+        auto result = importedUnits->pFunc()->performTestWithHistory(history, path, importedUnits, type);
+
+        history.pop_back();
+
+        return result;
     }
 
     // Units that are defined in terms of themselves (a -> b -> a) are neither
